@@ -411,25 +411,34 @@ theorem atMostOne_of_sentinel_eq (fs : List FieldD) (vs vs' : List Val)
   rw [he j fj hfj] at hj
   exact h i j fi fj g hfi hfj hgi hgj hi hj
 
+/-- the invariant only looks at WHICH slots are unset: a state with the same selection and
+    slot-wise the same sentinel-ness satisfies it too -/
+theorem inv_of_sentinel_eq (fs : List FieldD) (n : Nat) (vs vs' : List Val) (ow : Bool) (unk : Bytes) (cur : List (Option Nat))
+    (he : ∀ i fi, fs[i]? = some fi → isSentinel fi (vs'.getD i .ph) = isSentinel fi (vs.getD i .ph))
+    (h : Inv fs n { slots := vs, onWire := ow, unknown := unk, cur := cur }) :
+    Inv fs n { slots := vs', onWire := ow, unknown := unk, cur := cur } := by
+  refine ⟨h.1, ?_⟩
+  intro i f g hf hg hcur
+  have := h.2 i f g hf hg hcur
+  simp only at this ⊢
+  rw [← isSentinel_iff] at this ⊢
+  rw [he i f hf]; exact this
+
 theorem deepCopy_inv (S : Schema) (c : Nat) (sl : List Val) (ow : Bool) (unk : Bytes) (cur : List (Option Nat))
-    (hw : WfGroups (fieldsOf S c) (groupsOf S c))
+    (_hw : WfGroups (fieldsOf S c) (groupsOf S c))
     (h : Inv (fieldsOf S c) (groupsOf S c) { slots := sl, onWire := ow, unknown := unk, cur := cur }) :
     ∃ sl' cur', deepCopy S (.msg c sl ow unk cur) = .msg c sl' ow unk cur'
       ∧ Inv (fieldsOf S c) (groupsOf S c) { slots := sl', onWire := ow, unknown := unk, cur := cur' } := by
   refine ⟨_, _, by rw [deepCopy], ?_⟩
-  apply postInit_inv _ _ _ _ _ hw
-  exact atMostOne_of_sentinel_eq _ sl _ (fun i fi hf => deepCopySlots_sentinel S _ sl i fi hf)
-    (inv_atMostOne _ _ _ h)
+  exact inv_of_sentinel_eq _ _ sl _ ow unk cur (fun i fi hf => deepCopySlots_sentinel S _ sl i fi hf) h
 
 theorem shallowCopy_inv (S : Schema) (c : Nat) (sl : List Val) (ow : Bool) (unk : Bytes) (cur : List (Option Nat))
-    (hw : WfGroups (fieldsOf S c) (groupsOf S c))
+    (_hw : WfGroups (fieldsOf S c) (groupsOf S c))
     (h : Inv (fieldsOf S c) (groupsOf S c) { slots := sl, onWire := ow, unknown := unk, cur := cur }) :
     ∃ sl' cur', shallowCopy S (.msg c sl ow unk cur) = .msg c sl' ow unk cur'
       ∧ Inv (fieldsOf S c) (groupsOf S c) { slots := sl', onWire := ow, unknown := unk, cur := cur' } := by
   refine ⟨_, _, rfl, ?_⟩
-  apply postInit_inv _ _ _ _ _ hw
-  exact atMostOne_of_sentinel_eq _ sl _ (fun i fi hf => shallowSlots_sentinel _ sl i fi hf)
-    (inv_atMostOne _ _ _ h)
+  exact inv_of_sentinel_eq _ _ sl _ ow unk cur (fun i fi hf => shallowSlots_sentinel _ sl i fi hf) h
 
 /-! ### reads -/
 
